@@ -1,8 +1,558 @@
 (* Proofs/Relabel.v — lemmas for property C15 (label and storage-order invariance) that the owners of the
-   individual models did not already prove.  Every lemma is on top of the owners' definitions. *)
-From Coq Require Import List Arith NArith ZArith Bool Lia Permutation.
+   individual models did not already prove.  Every lemma is on top of the owners' definitions.
+
+   Part 1: the mirror models of C06 / C14 / C07 are EQUIVARIANT under an injective renaming f of the alternatives:
+           running a rule on the renamed instance gives exactly the renamed result — as lists, in the same iteration
+           order, for every instance (no well-formedness needed): the models only ever compare alternatives with
+           N.eqb, and N.eqb (f a) (f b) = N.eqb a b.
+   Part 2: witness checkers and reference deciders of C03 / C11 / C05 / C13 / C19 under renaming and reordering. *)
+From Coq Require Import List Arith NArith ZArith QArith Qcanon Bool Lia Permutation.
 From PrefVerif Require Import Lib.Val Model.Relabel.
+From PrefVerif Require Model.Scoring Model.Bucklin Model.Pairwise.
 Import ListNotations.
+Local Close Scope Qc_scope.
+Local Close Scope Q_scope.
 
 Lemma map_order_id o : map_order (fun x => x) o = o.
 Proof. unfold map_order. induction o as [|c r IH]; [reflexivity|]. simpl. now rewrite map_id, IH. Qed.
+
+(* ------------------------------------------------------------------------------------------------------------ *)
+(* generic list facts                                                                                          *)
+Lemma map_keys_snd {V} f (t : list (N * V)) : map snd (map_keys f t) = map snd t.
+Proof. unfold map_keys. rewrite map_map. reflexivity. Qed.
+Lemma map_keys_fst {V} f (t : list (N * V)) : map fst (map_keys f t) = map f (map fst t).
+Proof. unfold map_keys. rewrite !map_map. reflexivity. Qed.
+Lemma map_keys_filter_snd {V} f (p : V -> bool) (t : list (N * V)) :
+  filter (fun e => p (snd e)) (map_keys f t) = map_keys f (filter (fun e => p (snd e)) t).
+Proof.
+  induction t as [|[a x] t IH]; simpl; [reflexivity|]. destruct (p x); simpl; now rewrite IH.
+Qed.
+Lemma map_keys_app {V} f (t u : list (N * V)) : map_keys f (t ++ u) = map_keys f t ++ map_keys f u.
+Proof. apply map_app. Qed.
+Lemma map_keys_length {V} f (t : list (N * V)) : length (map_keys f t) = length t.
+Proof. apply map_length. Qed.
+Lemma last_map {A B} (g : A -> B) l d : last (map g l) (g d) = g (last l d).
+Proof. induction l as [|x l IH]; [reflexivity|]. destruct l; [reflexivity|]. exact IH. Qed.
+Lemma hd_map {A B} (g : A -> B) l d : hd (g d) (map g l) = g (hd d l).
+Proof. destruct l; reflexivity. Qed.
+Lemma filter_map_comm {A B} (g : A -> B) (p : B -> bool) l : filter p (map g l) = map g (filter (fun x => p (g x)) l).
+Proof. induction l as [|x l IH]; simpl; [reflexivity|]. destruct (p (g x)); simpl; now rewrite IH. Qed.
+Lemma filter_ext' {A} (p q : A -> bool) l : (forall x, p x = q x) -> filter p l = filter q l.
+Proof. intros E. induction l as [|x l IH]; simpl; [reflexivity|]. now rewrite E, IH. Qed.
+Lemma existsb_map' {A B} (g : B -> bool) (h : A -> B) l : existsb g (map h l) = existsb (fun x => g (h x)) l.
+Proof. induction l as [|x l IH]; simpl; [reflexivity|]. now rewrite IH. Qed.
+Lemma forallb_map' {A B} (g : B -> bool) (h : A -> B) l : forallb g (map h l) = forallb (fun x => g (h x)) l.
+Proof. induction l as [|x l IH]; simpl; [reflexivity|]. now rewrite IH. Qed.
+Lemma existsb_ext' {A} (g h : A -> bool) l : (forall x, g x = h x) -> existsb g l = existsb h l.
+Proof. intros E. induction l as [|x l IH]; simpl; [reflexivity|]. now rewrite E, IH. Qed.
+Lemma forallb_ext' {A} (g h : A -> bool) l : (forall x, g x = h x) -> forallb g l = forallb h l.
+Proof. intros E. induction l as [|x l IH]; simpl; [reflexivity|]. now rewrite E, IH. Qed.
+Lemma forallb_ext_in {A} (g h : A -> bool) l : (forall x, In x l -> g x = h x) -> forallb g l = forallb h l.
+Proof.
+  intros E. induction l as [|x l IH]; simpl; [reflexivity|].
+  rewrite E by (now left). rewrite IH; [reflexivity|]. intros y Hy. apply E. now right.
+Qed.
+Lemma forallb_perm' {A} (g : A -> bool) l l' : Permutation l l' -> forallb g l = forallb g l'.
+Proof.
+  induction 1 as [|x l l' _ IH|x y l|l l' l'' _ IH1 _ IH2]; simpl; try congruence.
+  destruct (g x), (g y); reflexivity.
+Qed.
+Lemma existsb_perm' {A} (g : A -> bool) l l' : Permutation l l' -> existsb g l = existsb g l'.
+Proof.
+  induction 1 as [|x l l' _ IH|x y l|l l' l'' _ IH1 _ IH2]; simpl; try congruence.
+  destruct (g x), (g y); reflexivity.
+Qed.
+
+Ltac dgate :=
+  match goal with |- context [Scoring.dt_in ?a ?b] => destruct (Scoring.dt_in a b); [|reflexivity] end.
+
+Section Inj.
+Variable f : N -> N.
+Hypothesis f_inj : forall x y, f x = f y -> x = y.
+
+Lemma eqb_f a b : N.eqb (f a) (f b) = N.eqb a b.
+Proof.
+  destruct (N.eqb_spec a b) as [->|n]; [apply N.eqb_refl|].
+  apply N.eqb_neq. intros E. apply n. now apply f_inj.
+Qed.
+
+Lemma mem_f a l : existsb (N.eqb (f a)) (map f l) = existsb (N.eqb a) l.
+Proof. rewrite existsb_map'. apply existsb_ext'. intros x. apply eqb_f. Qed.
+
+(* ============================================================================================================ *)
+(* Part 1a — Model/Scoring.v (C06)                                                                              *)
+Section ScoreTables.
+  Import Scoring.
+  Context {S : Type}.
+  Variables (add : S -> S -> S) (zero : S) (leb : S -> S -> bool).
+
+  Lemma tbl_add_relabel t a s :
+    tbl_add add zero (map_keys f t) (f a) s = map_keys f (tbl_add add zero t a s).
+  Proof.
+    induction t as [|[b x] t IH]; simpl; [reflexivity|].
+    rewrite eqb_f. destruct (N.eqb b a); simpl; [reflexivity|]. now rewrite IH.
+  Qed.
+
+  Lemma tbl_adds_relabel evs : forall t,
+    tbl_adds add zero (map_keys f t) (map_keys f evs) = map_keys f (tbl_adds add zero t evs).
+  Proof.
+    unfold tbl_adds. induction evs as [|[a s] evs IH]; intros t; simpl; [reflexivity|].
+    rewrite tbl_add_relabel. apply IH.
+  Qed.
+
+  Lemma tbl_winners_relabel t : tbl_winners leb (map_keys f t) = rmap (map f) (tbl_winners leb t).
+  Proof.
+    destruct t as [|[a x] t]; [reflexivity|].
+    change (map_keys f ((a, x) :: t)) with ((f a, x) :: map_keys f t).
+    unfold tbl_winners, rmap. f_equal. rewrite map_keys_snd.
+    set (b := best_of leb x (map snd t)).
+    change ((f a, x) :: map_keys f t) with (map_keys f ((a, x) :: t)).
+    rewrite (map_keys_filter_snd f (fun v => leb b v && leb v b)). apply map_keys_fst.
+  Qed.
+End ScoreTables.
+
+Import Scoring.
+
+Lemma hd_map_order o : hd [] (map_order f o) = map f (hd [] o).
+Proof. destruct o; reflexivity. Qed.
+Lemma last_map_order o : last (map_order f o) [] = map f (last o []).
+Proof. unfold map_order. change (@nil N) with (map f []) at 1. apply last_map. Qed.
+
+Lemma flat_map_map_mult {B} (g : order * N -> list B) (h : order * N -> list B) p :
+  (forall om, g (map_order f (fst om), snd om) = h om) ->
+  flat_map g (map_mult f p) = flat_map h p.
+Proof.
+  intros E. unfold map_mult. induction p as [|om p IH]; simpl; [reflexivity|]. now rewrite E, IH.
+Qed.
+
+Lemma flat_map_keys {A V} (g : A -> list (N * V)) l :
+  flat_map (fun x => map_keys f (g x)) l = map_keys f (flat_map g l).
+Proof. induction l as [|x l IH]; simpl; [reflexivity|]. now rewrite IH, map_keys_app. Qed.
+
+Lemma plur_events_relabel p : plur_events (map_mult f p) = map_keys f (plur_events p).
+Proof.
+  unfold plur_events. rewrite <- flat_map_keys. apply flat_map_map_mult. intros [o k]. simpl.
+  rewrite hd_map_order. unfold map_keys. rewrite !map_map. reflexivity.
+Qed.
+
+Lemma veto_events_relabel p : veto_events (map_mult f p) = map_keys f (veto_events p).
+Proof.
+  unfold veto_events. rewrite <- flat_map_keys. apply flat_map_map_mult. intros [o k]. simpl.
+  rewrite last_map_order. unfold map_keys. rewrite !map_map. reflexivity.
+Qed.
+
+Lemma heads_relabel k o : heads k (map_order f o) = map f (heads k o).
+Proof.
+  unfold heads, map_order. rewrite firstn_map. induction (firstn k o) as [|c r IH]; simpl; [reflexivity|].
+  rewrite IH, map_app. f_equal. destruct c; reflexivity.
+Qed.
+
+Lemma kapp_events_relabel k p : kapp_events k (map_mult f p) = map_keys f (kapp_events k p).
+Proof.
+  unfold kapp_events. rewrite <- flat_map_keys. apply flat_map_map_mult. intros [o n]. simpl.
+  rewrite heads_relabel. unfold map_keys. rewrite !map_map. reflexivity.
+Qed.
+
+Lemma borda_ev_relabel k o : forall i, borda_ev i k (map_order f o) = map_keys f (borda_ev i k o).
+Proof.
+  induction o as [|c r IH]; intros i; simpl; [reflexivity|].
+  rewrite map_length, IH, map_keys_app. f_equal. unfold map_keys. rewrite !map_map. reflexivity.
+Qed.
+
+Lemma borda_events_relabel m p : borda_events m (map_mult f p) = map_keys f (borda_events m p).
+Proof.
+  unfold borda_events. rewrite <- flat_map_keys. apply flat_map_map_mult. intros [o n]. simpl.
+  apply borda_ev_relabel.
+Qed.
+
+Theorem plurality_winner_relabel i :
+  plurality_winner (relabel_inst f i) = rmap (map f) (plurality_winner i).
+Proof.
+  unfold plurality_winner, plurality_core. change (dt (relabel_inst f i)) with (dt i). dgate. simpl.
+  rewrite plur_events_relabel. change (@nil (N * N)) with (map_keys f (@nil (N * N))).
+  rewrite tbl_adds_relabel. apply tbl_winners_relabel.
+Qed.
+
+Theorem veto_winner_relabel i : veto_winner (relabel_inst f i) = rmap (map f) (veto_winner i).
+Proof.
+  unfold veto_winner. change (dt (relabel_inst f i)) with (dt i). dgate. simpl.
+  rewrite veto_events_relabel.
+  replace (map (fun a => (a, 0%N)) (map f (alts i))) with (map_keys f (map (fun a => (a, 0%N)) (alts i)))
+    by (unfold map_keys; rewrite !map_map; reflexivity).
+  rewrite tbl_adds_relabel. apply tbl_winners_relabel.
+Qed.
+
+Theorem k_approval_winner_relabel i k :
+  k_approval_winner (relabel_inst f i) k = rmap (map f) (k_approval_winner i k).
+Proof.
+  unfold k_approval_winner. change (dt (relabel_inst f i)) with (dt i). dgate. simpl.
+  rewrite kapp_events_relabel. change (@nil (N * N)) with (map_keys f (@nil (N * N))).
+  rewrite tbl_adds_relabel. apply tbl_winners_relabel.
+Qed.
+
+Theorem borda_scores_relabel i : borda_scores (relabel_inst f i) = rmap (map_keys f) (borda_scores i).
+Proof.
+  unfold borda_scores. change (dt (relabel_inst f i)) with (dt i). dgate. simpl. simpl. f_equal.
+  rewrite borda_events_relabel. change (@nil (N * Z)) with (map_keys f (@nil (N * Z))).
+  apply tbl_adds_relabel.
+Qed.
+
+Theorem borda_winner_relabel i : borda_winner (relabel_inst f i) = rmap (map f) (borda_winner i).
+Proof.
+  unfold borda_winner. change (dt (relabel_inst f i)) with (dt i). destruct (dt_in (dt i) [Soc; Toc]); [|reflexivity].
+  rewrite borda_scores_relabel. destruct (borda_scores i) as [t|e]; simpl; [|reflexivity].
+  apply tbl_winners_relabel.
+Qed.
+
+(* Copeland: nested table *)
+Definition map_ctable (t : ctable) : ctable := map (fun xr => (f (fst xr), map_keys f (snd xr))) t.
+
+Lemma cop_init_relabel al : cop_init (map f al) = map_ctable (cop_init al).
+Proof.
+  unfold cop_init, map_ctable. rewrite !map_map. apply map_ext. intros a. simpl. f_equal.
+  rewrite filter_map_comm. unfold map_keys. rewrite !map_map. simpl.
+  f_equal. apply filter_ext'. intros b. now rewrite eqb_f.
+Qed.
+
+Lemma cop_add_relabel t w b d : cop_add (map_ctable t) (f w) (f b) d = map_ctable (cop_add t w b d).
+Proof.
+  unfold cop_add, map_ctable. rewrite !map_map. apply map_ext. intros [x r]. simpl.
+  rewrite eqb_f. destruct (N.eqb x w); simpl; [|reflexivity]. f_equal.
+  unfold map_keys. rewrite !map_map. apply map_ext. intros [y z]. simpl.
+  rewrite eqb_f. destruct (N.eqb y b); reflexivity.
+Qed.
+
+Lemma cop_inner_relabel k b before : forall t,
+  fold_left (fun t w => cop_add (cop_add t w (f b) k) (f b) w (- k)%Z) (map f before) (map_ctable t)
+  = map_ctable (fold_left (fun t w => cop_add (cop_add t w b k) b w (- k)%Z) before t).
+Proof.
+  induction before as [|w r IH]; intros t; simpl; [reflexivity|]. rewrite !cop_add_relabel. apply IH.
+Qed.
+
+Lemma cop_outer_relabel k before c : forall t,
+  fold_left (fun t b => fold_left (fun t w => cop_add (cop_add t w b k) b w (- k)%Z) (map f before) t)
+            (map f c) (map_ctable t)
+  = map_ctable (fold_left (fun t b => fold_left (fun t w => cop_add (cop_add t w b k) b w (- k)%Z) before t) c t).
+Proof.
+  induction c as [|b r IH]; intros t; simpl; [reflexivity|]. rewrite cop_inner_relabel. apply IH.
+Qed.
+
+Lemma cop_order_relabel k o : forall before t,
+  cop_order k (map f before) (map_order f o) (map_ctable t) = map_ctable (cop_order k before o t).
+Proof.
+  induction o as [|c r IH]; intros before t; simpl; [reflexivity|].
+  rewrite cop_outer_relabel, <- map_app. apply IH.
+Qed.
+
+Lemma copeland_table_relabel al p : copeland_table (map f al) (map_mult f p) = map_ctable (copeland_table al p).
+Proof.
+  unfold copeland_table. rewrite cop_init_relabel. generalize (cop_init al) as t.
+  induction p as [|[o k] p IH]; intros t; simpl; [reflexivity|].
+  change (@nil N) with (map f []). rewrite cop_order_relabel. apply IH.
+Qed.
+
+Theorem copeland_scores_relabel i : copeland_scores (relabel_inst f i) = rmap map_ctable (copeland_scores i).
+Proof.
+  unfold copeland_scores. change (dt (relabel_inst f i)) with (dt i). dgate. simpl. simpl. f_equal.
+  apply copeland_table_relabel.
+Qed.
+
+Lemma cop_wins_relabel r : cop_wins (map_keys f r) = cop_wins r.
+Proof.
+  unfold cop_wins. f_equal. rewrite (map_keys_filter_snd f (fun z => (0 <? z)%Z)). apply map_keys_length.
+Qed.
+
+Theorem copeland_winner_relabel i : copeland_winner (relabel_inst f i) = rmap (map f) (copeland_winner i).
+Proof.
+  unfold copeland_winner. change (dt (relabel_inst f i)) with (dt i). destruct (dt_in (dt i) [Soc]); [|reflexivity].
+  rewrite copeland_scores_relabel. destruct (copeland_scores i) as [t|e]; simpl; [|reflexivity].
+  replace (map (fun xr => (fst xr, cop_wins (snd xr))) (map_ctable t))
+    with (map_keys f (map (fun xr => (fst xr, cop_wins (snd xr))) t)).
+  - apply tbl_winners_relabel.
+  - unfold map_keys, map_ctable. rewrite !map_map. apply map_ext. intros [x r]. simpl.
+    now rewrite cop_wins_relabel.
+Qed.
+
+(* approval guard *)
+Lemma ballot_size_relabel o : ballot_size (map_order f o) = ballot_size o.
+Proof. induction o as [|c r IH]; simpl; [reflexivity|]. now rewrite map_length, IH. Qed.
+
+Lemma is_complete_relabel i : is_complete (relabel_inst f i) = is_complete i.
+Proof.
+  unfold is_complete. change (dt (relabel_inst f i)) with (dt i). dgate. simpl.
+  unfold map_mult. rewrite map_map. simpl.
+  rewrite (map_ext (fun om => ballot_size (map_order f (fst om))) (fun om => ballot_size (fst om)))
+    by (intros om; apply ballot_size_relabel). reflexivity.
+Qed.
+
+Lemma is_approval_relabel i : is_approval (relabel_inst f i) = is_approval i.
+Proof.
+  unfold is_approval. change (dt (relabel_inst f i)) with (dt i). dgate.
+  change (prof (relabel_inst f i)) with (map_mult f (prof i)).
+  unfold map_mult. rewrite map_map. simpl.
+  rewrite (map_ext (fun om => length (map_order f (fst om))) (fun om => length (fst om)))
+    by (intros om; apply map_length).
+  destruct (map (fun om => length (fst om)) (prof i)) as [|x l]; [reflexivity|].
+  destruct (max_list x l =? 1); [reflexivity|]. destruct (max_list x l =? 2); [|reflexivity].
+  apply is_complete_relabel.
+Qed.
+
+Theorem approval_winner_relabel i : approval_winner (relabel_inst f i) = rmap (map f) (approval_winner i).
+Proof.
+  unfold approval_winner, requires_approval. rewrite is_approval_relabel.
+  destruct (is_approval i) as [[|]|e]; simpl; try reflexivity. apply plurality_winner_relabel.
+Qed.
+
+Lemma sav_events_relabel p : sav_events (map_mult f p) = map_keys f (sav_events p).
+Proof.
+  unfold sav_events. rewrite <- flat_map_keys. apply flat_map_map_mult. intros [o k]. simpl.
+  rewrite hd_map_order. unfold map_keys, sav_weight. rewrite !map_map, map_length. reflexivity.
+Qed.
+
+Theorem sav_winner_relabel i : sav_winner (relabel_inst f i) = rmap (map f) (sav_winner i).
+Proof.
+  unfold sav_winner, requires_approval. rewrite is_approval_relabel.
+  destruct (is_approval i) as [[|]|e]; simpl; try reflexivity.
+  unfold sav_core. rewrite sav_events_relabel. change (@nil (N * Qc)) with (map_keys f (@nil (N * Qc))).
+  rewrite tbl_adds_relabel. apply tbl_winners_relabel.
+Qed.
+
+(* ============================================================================================================ *)
+(* Part 1b — Model/Bucklin.v (C14)                                                                              *)
+Import Bucklin.
+
+Lemma tbl_get_relabel t a : tbl_get (map_keys f t) (f a) = tbl_get t a.
+Proof.
+  unfold tbl_get. induction t as [|[b x] t IH]; simpl; [reflexivity|].
+  rewrite eqb_f. destruct (N.eqb b a); [reflexivity|]. exact IH.
+Qed.
+
+Definition st_map (st : list (N * N) * Z) : list (N * N) * Z := (map_keys f (fst st), snd st).
+
+Lemma round_step_relabel pos st o k :
+  round_step pos (st_map st) (map_order f o, k) = st_map (round_step pos st (o, k)).
+Proof.
+  unfold round_step. simpl. unfold map_order. rewrite nth_error_map.
+  destruct (nth_error o pos) as [[|a c]|]; simpl; try reflexivity.
+  unfold st_map. simpl. rewrite tbl_add_relabel, tbl_get_relabel. reflexivity.
+Qed.
+
+Lemma round_relabel pos p : forall st, round pos (map_mult f p) (st_map st) = st_map (round pos p st).
+Proof.
+  unfold round. induction p as [|[o k] p IH]; intros st; simpl; [reflexivity|].
+  rewrite round_step_relabel. apply IH.
+Qed.
+
+Lemma level_loop_relabel fuel p q m : forall pos st,
+  level_loop fuel (map_mult f p) q m pos (st_map st) = rmap (map_keys f) (level_loop fuel p q m pos st).
+Proof.
+  induction fuel as [|n IH]; intros pos st; simpl.
+  - destruct ((snd st <? q)%Z && (pos <? m)); reflexivity.
+  - destruct ((snd st <? q)%Z && (pos <? m)); [|reflexivity]. rewrite round_relabel. apply IH.
+Qed.
+
+Lemma level_core_relabel i : level_core (relabel_inst f i) = rmap (map f) (level_core i).
+Proof.
+  unfold level_core, quota_of. simpl.
+  change (@nil (N * N), (-1)%Z) with (st_map ([], (-1)%Z)). rewrite level_loop_relabel.
+  destruct (level_loop _ _ _ _ _ _) as [t|e]; simpl; [|reflexivity]. apply tbl_winners_relabel.
+Qed.
+
+Theorem fallback_winner_relabel i : fallback_winner (relabel_inst f i) = rmap (map f) (fallback_winner i).
+Proof.
+  unfold fallback_winner. change (dt (relabel_inst f i)) with (dt i). dgate.
+  apply level_core_relabel.
+Qed.
+
+Theorem bucklin_winner_relabel i : bucklin_winner (relabel_inst f i) = rmap (map f) (bucklin_winner i).
+Proof.
+  unfold bucklin_winner. change (dt (relabel_inst f i)) with (dt i). dgate.
+  apply level_core_relabel.
+Qed.
+
+(* ============================================================================================================ *)
+(* Part 1c — Model/Pairwise.v (C07)                                                                             *)
+Section PairwiseTables.
+Import Pairwise.
+
+Lemma pw_alts_relabel i : Pairwise.alts (relabel_pw_inst f i) = map f (Pairwise.alts i).
+Proof. unfold Pairwise.alts. simpl. apply map_keys_fst. Qed.
+
+Lemma row_add_relabel r b d : row_add (map_keys f r) (f b) d = map_keys f (row_add r b d).
+Proof.
+  induction r as [|[x v] r IH]; simpl; [reflexivity|].
+  rewrite eqb_f. destruct (N.eqb x b); simpl; [reflexivity|]. now rewrite IH.
+Qed.
+
+Lemma ptbl_add_relabel t w b d : Pairwise.tbl_add (map_table f t) (f w) (f b) d = map_table f (Pairwise.tbl_add t w b d).
+Proof.
+  induction t as [|[x r] t IH]; simpl; [reflexivity|].
+  rewrite eqb_f. destruct (N.eqb x w); simpl; [now rewrite row_add_relabel|]. now rewrite IH.
+Qed.
+
+Lemma init_table_relabel al : init_table (map f al) = map_table f (init_table al).
+Proof.
+  unfold init_table, map_table, others. rewrite !map_map. apply map_ext. intros a. simpl. f_equal.
+  rewrite filter_map_comm. unfold map_keys. rewrite !map_map. simpl.
+  f_equal. apply filter_ext'. intros b. now rewrite eqb_f.
+Qed.
+
+Lemma rget_relabel r b : rget (map_keys f r) (f b) = rget r b.
+Proof.
+  induction r as [|[x v] r IH]; simpl; [reflexivity|]. rewrite eqb_f. destruct (N.eqb x b); [reflexivity|]. exact IH.
+Qed.
+
+Lemma tget_row_relabel t a : tget_row (map_table f t) (f a) = option_map (map_keys f) (tget_row t a).
+Proof.
+  induction t as [|[x r] t IH]; simpl; [reflexivity|]. rewrite eqb_f. destruct (N.eqb x a); [reflexivity|]. exact IH.
+Qed.
+
+Theorem tget_relabel t a b : tget (map_table f t) (f a) (f b) = tget t a b.
+Proof.
+  unfold tget. rewrite tget_row_relabel. destruct (tget_row t a) as [r|]; simpl; [|reflexivity]. apply rget_relabel.
+Qed.
+
+(* the three double loops differ only in the step g and in which list is the outer one *)
+Section Loops.
+  Variable g : table -> N -> N -> table.
+  Hypothesis g_relabel : forall t x y, g (map_table f t) (f x) (f y) = map_table f (g t x y).
+
+  Lemma fold_inner_relabel x l2 : forall t,
+    fold_left (fun t y => g t (f x) y) (map f l2) (map_table f t) = map_table f (fold_left (fun t y => g t x y) l2 t).
+  Proof. induction l2 as [|y r IH]; intros t; simpl; [reflexivity|]. rewrite g_relabel. apply IH. Qed.
+
+  Lemma fold_outer_relabel l1 l2 : forall t,
+    fold_left (fun t x => fold_left (fun t y => g t x y) (map f l2) t) (map f l1) (map_table f t)
+    = map_table f (fold_left (fun t x => fold_left (fun t y => g t x y) l2 t) l1 t).
+  Proof. induction l1 as [|x r IH]; intros t; simpl; [reflexivity|]. rewrite fold_inner_relabel. apply IH. Qed.
+End Loops.
+
+Definition pst_map (st : table * list N) : table * list N := (map_table f (fst st), map f (snd st)).
+
+Lemma pw_class_relabel k st cls : pw_class k (pst_map st) (map f cls) = pst_map (pw_class k st cls).
+Proof.
+  destruct st as [t before]. unfold pw_class, pst_map. simpl. f_equal; [|symmetry; apply map_app].
+  apply (fold_outer_relabel (fun t beaten winning => Pairwise.tbl_add t winning beaten k)).
+  intros t' x y. apply ptbl_add_relabel.
+Qed.
+
+Lemma cp_class_relabel k st cls : cp_class k (pst_map st) (map f cls) = pst_map (cp_class k st cls).
+Proof.
+  destruct st as [t before]. unfold cp_class, pst_map. simpl. f_equal; [|symmetry; apply map_app].
+  apply (fold_outer_relabel (fun t beaten winning =>
+           Pairwise.tbl_add (Pairwise.tbl_add t winning beaten k) beaten winning (- k)%Z)).
+  intros t' x y. now rewrite !ptbl_add_relabel.
+Qed.
+
+Lemma cd_class_relabel k st cls : cd_class k (pst_map st) (map f cls) = pst_map (cd_class k st cls).
+Proof.
+  destruct st as [t before]. unfold cd_class, pst_map. simpl. f_equal; [|symmetry; apply map_app].
+  apply (fold_outer_relabel (fun t winning beaten =>
+           Pairwise.tbl_add (Pairwise.tbl_add t winning beaten k) beaten winning (- k)%Z)).
+  intros t' x y. now rewrite !ptbl_add_relabel.
+Qed.
+
+Section Orders.
+  Variable cl : Z -> table * list N -> list N -> table * list N.
+  Hypothesis cl_relabel : forall k st cls, cl k (pst_map st) (map f cls) = pst_map (cl k st cls).
+
+  Lemma fold_classes_relabel k o : forall st,
+    fold_left (cl k) (map_order f o) (pst_map st) = pst_map (fold_left (cl k) o st).
+  Proof. induction o as [|c r IH]; intros st; simpl; [reflexivity|]. rewrite cl_relabel. apply IH. Qed.
+
+  Lemma fold_orders_relabel p : forall t,
+    fold_left (fun t ok => fst (fold_left (cl (Z.of_N (snd ok))) (fst ok) (t, []))) (map_mult f p) (map_table f t)
+    = map_table f (fold_left (fun t ok => fst (fold_left (cl (Z.of_N (snd ok))) (fst ok) (t, []))) p t).
+  Proof.
+    induction p as [|[o k] p IH]; intros t; simpl; [reflexivity|].
+    change (map_table f t, @nil N) with (pst_map (t, [])). rewrite fold_classes_relabel. apply IH.
+  Qed.
+End Orders.
+
+Theorem pairwise_table_relabel i : pairwise_table (relabel_pw_inst f i) = map_table f (pairwise_table i).
+Proof.
+  unfold pairwise_table. rewrite pw_alts_relabel, init_table_relabel.
+  apply (fold_orders_relabel pw_class pw_class_relabel).
+Qed.
+
+Theorem copeland_table_pw_relabel i : Pairwise.copeland_table (relabel_pw_inst f i) = map_table f (Pairwise.copeland_table i).
+Proof.
+  unfold Pairwise.copeland_table. rewrite pw_alts_relabel, init_table_relabel.
+  apply (fold_orders_relabel cp_class cp_class_relabel).
+Qed.
+
+Theorem condorcet_table_relabel i : condorcet_table (relabel_pw_inst f i) = map_table f (condorcet_table i).
+Proof.
+  unfold condorcet_table. rewrite pw_alts_relabel, init_table_relabel.
+  apply (fold_orders_relabel cd_class cd_class_relabel).
+Qed.
+
+Theorem pairwise_scores_relabel i : pairwise_scores (relabel_pw_inst f i) = rmap (map_table f) (pairwise_scores i).
+Proof.
+  unfold pairwise_scores. change (data_type (relabel_pw_inst f i)) with (data_type i).
+  destruct (is_ordinal (data_type i)); [|reflexivity]. simpl. f_equal. apply pairwise_table_relabel.
+Qed.
+
+Theorem copeland_scores_pw_relabel i :
+  Pairwise.copeland_scores (relabel_pw_inst f i) = rmap (map_table f) (Pairwise.copeland_scores i).
+Proof.
+  unfold Pairwise.copeland_scores. change (data_type (relabel_pw_inst f i)) with (data_type i).
+  destruct (is_ordinal (data_type i)); [|reflexivity]. simpl. f_equal. apply copeland_table_pw_relabel.
+Qed.
+
+Lemma row_ok_relabel weak r : row_ok weak (map_keys f r) = row_ok weak r.
+Proof. unfold row_ok, map_keys. rewrite forallb_map'. reflexivity. Qed.
+
+Theorem has_condorcet_relabel i weak : has_condorcet (relabel_pw_inst f i) weak = has_condorcet i weak.
+Proof.
+  unfold has_condorcet. change (data_type (relabel_pw_inst f i)) with (data_type i).
+  destruct (is_ordinal (data_type i)); [|reflexivity]. f_equal. rewrite condorcet_table_relabel.
+  unfold map_table. rewrite existsb_map'. apply existsb_ext'. intros [a r]. simpl. apply row_ok_relabel.
+Qed.
+
+(* borda_scores of pairwisecomparisons.py *)
+Lemma dd_add_relabel r a d : dd_add (map_keys f r) (f a) d = map_keys f (dd_add r a d).
+Proof.
+  induction r as [|[x v] r IH]; simpl; [reflexivity|].
+  rewrite eqb_f. destruct (N.eqb x a); simpl; [reflexivity|]. now rewrite IH.
+Qed.
+
+Definition bst_map (st : row * Z) : row * Z := (map_keys f (fst st), snd st).
+
+Lemma bd_class_relabel k st cls : bd_class k (bst_map st) (map f cls) = bst_map (bd_class k st cls).
+Proof.
+  destruct st as [r i]. unfold bd_class, bst_map. simpl. rewrite map_length. f_equal.
+  generalize ((i - Z.of_nat (length cls)) * k)%Z as d. intros d. revert r.
+  induction cls as [|a c IH]; intros r; simpl; [reflexivity|]. rewrite dd_add_relabel. apply IH.
+Qed.
+
+Lemma bd_fold_relabel k o : forall st,
+  fold_left (bd_class k) (map_order f o) (bst_map st) = bst_map (fold_left (bd_class k) o st).
+Proof.
+  induction o as [|c o IH]; intros st; [reflexivity|].
+  change (map_order f (c :: o)) with (map f c :: map_order f o). cbn [fold_left].
+  rewrite bd_class_relabel. apply IH.
+Qed.
+
+Lemma bd_order_relabel m r o k : bd_order m (map_keys f r) (map_order f o, k) = map_keys f (bd_order m r (o, k)).
+Proof.
+  unfold bd_order. simpl. change (map_keys f r, m) with (bst_map (r, m)). rewrite bd_fold_relabel. reflexivity.
+Qed.
+
+Theorem borda_table_relabel i : borda_table (relabel_pw_inst f i) = map_keys f (borda_table i).
+Proof.
+  unfold borda_table. simpl. change (@nil (N * Z)) with (map_keys f (@nil (N * Z))) at 1.
+  generalize (@nil (N * Z)) as r. induction (mult i) as [|[o k] p IH]; intros r; simpl; [reflexivity|].
+  rewrite bd_order_relabel. apply IH.
+Qed.
+
+Theorem borda_scores_pw_relabel i :
+  Pairwise.borda_scores (relabel_pw_inst f i) = rmap (map_keys f) (Pairwise.borda_scores i).
+Proof.
+  unfold Pairwise.borda_scores. change (data_type (relabel_pw_inst f i)) with (data_type i).
+  destruct (is_complete_type (data_type i)); [|reflexivity]. simpl. f_equal. apply borda_table_relabel.
+Qed.
+
+End PairwiseTables.
+
+End Inj.
